@@ -14,13 +14,14 @@ RULE = ('random lineages (depth<=6, and 1.5 % deep ones: 120, 1100 and around ev
         'found on the instance, on the class or through a property (also a property raising AttributeError); ACEs as tuples or lists, the DENY_ALL constants themselves; the permission field of an ACE as bare str, '
         'str-subclass instance, list/tuple/set/frozenset/dict/keys view/iterable-only object/one-shot generator, the all-permissions '
         'marker of pyramid.authorization, of legacy pyramid.security, a fresh instance, an application subclass, or an object without '
-        '__iter__ (int, None, object); permission names incl. proper substrings of each other and every string constant the anchored '
+        '__iter__ (int, None, object) or an application object whose __eq__ equals one permission name; permission names incl. proper substrings of each other and every string constant the anchored '
         'code mentions; str-subclass instances as requested permission / principals; principals as list/tuple/set/frozenset; root with '
         '__parent__ = None or without the attribute; falsy resources) x principal subsets x permission, each decided through ACLHelper, '
         'ACLAuthorizationPolicy, request.has_permission (with and without context argument, with and without a security policy), '
         'security.principals_allowed_by_permission (with / without authorization policy), view_execution_permitted (one secured view / '
         'a view without permission / no view / the default view '' with the name argument omitted / a MultiView of sub-views with predicates and permissions of their own); 4 % of the '
-        'cases carry one malformed item (__acl__ = None, a falsy callable, an ACE that is not a 3-sequence); non-trivial = at '
+        'cases carry one malformed item (__acl__ = None, a falsy callable, an ACE that is not a 3-sequence); 3 % run as a LABELLED TEST with '
+        'a second thread using the same helper / policy meanwhile (one GIL schedule each, no proof of thread safety); non-trivial = at '
         'least one ACE in the lineage matches principal AND permission (so the decision is not the default deny); distinct by full case')
 ASSUMPTIONS = ['ACE actions are compared with == against the Allow/Deny constants; principals and requested permissions are str',
                'a callable __acl__ is modelled by the list it returns (also when it returns a one-shot iterator: the translator '
@@ -175,6 +176,7 @@ ALL_FORMS = ('ALL', 'ALL_LEGACY', 'ALL_FRESH', 'ALL_SUB')
 CONTAINERS = ('list', 'tuple', 'set', 'frozenset', 'dict', 'dictkeys', 'iter', 'gen')
 # objects without __iter__ that are no str: an int, None (falsy), a plain object
 ATOMS = ('atom-int', 'atom-none', 'atom-object')
+# an application object (no str, no __iter__) whose __eq__ says it equals ONE permission name: {'kind': 'eqstr', 'names': [name]}
 
 
 def gen_perms(rng):
@@ -191,6 +193,8 @@ def gen_perms(rng):
         return {'kind': 'strsub', 'names': [pick_perm(rng)]}      # a single name that is an instance of a str SUBCLASS
     if r < 0.51:
         return {'kind': rng.choice(ATOMS), 'names': []}
+    if r < 0.55:
+        return {'kind': 'eqstr', 'names': [pick_perm(rng)]}
     k = rng.choice([0, 1, 1, 2, 2, 3])
     kind = rng.choice(['list', 'tuple']) if rng.random() < 0.6 else rng.choice(CONTAINERS[2:])
     return {'kind': kind, 'names': [pick_perm(rng) for _ in range(k)]}
@@ -246,6 +250,8 @@ def gen_case(rng):
         case['pform'] = rng.choice(PFORMS[1:])         # the principals are handed over as a tuple / set / frozenset
     if rng.random() < 0.2:
         case['noacl'] = 'raises'
+    if not deep and rng.random() < 0.03:
+        case['threads'] = True                        # labelled test: a second thread uses the same helper / policy meanwhile
     if rng.random() < 0.04:
         # MALFORMED input (outside the property's quantifier; modelled by permits_x): one location whose __acl__ is None, a
         # falsy callable (iterable or not), or whose ACL holds an ACE that is not a 3-sequence
@@ -328,11 +334,13 @@ def valid(case):
                 if not (isinstance(a[2], str) and a[2] != '' or isinstance(a[2], dict)):
                     return False
                 if isinstance(a[2], dict):
-                    if a[2]['kind'] not in CONTAINERS + ATOMS + ('strsub',) or not all(isinstance(x, str) and x for x in a[2]['names']):
+                    if a[2]['kind'] not in CONTAINERS + ATOMS + ('strsub', 'eqstr') or not all(isinstance(x, str) and x for x in a[2]['names']):
                         return False
-                    if a[2]['kind'] == 'strsub' and len(a[2]['names']) != 1:
+                    if a[2]['kind'] in ('strsub', 'eqstr') and len(a[2]['names']) != 1:
                         return False
         if not all(w in ('permission', 'principals') for w in case.get('sub', [])):
+            return False
+        if case.get('threads', False) not in (False, True):
             return False
         if case.get('root', 'none') not in ('none', 'missing') or case.get('pform', 'list') not in PFORMS \
                 or case.get('noacl', 'missing') not in ('missing', 'raises'):
@@ -365,6 +373,8 @@ def _perm_wire(p):
         return [0, p]                                  # PStr
     if p['kind'] == 'strsub':
         return [0, p['names'][0]]                      # PStr (an instance of a str subclass is a str)
+    if p['kind'] == 'eqstr':
+        return [2, p['names'][0]]                      # PEq
     if p['kind'] in ATOMS:
         return 1                                       # PAtom
     return [1, list(p['names'])]                       # PNames
@@ -505,6 +515,56 @@ class _S(str):
     """a str subclass (like a member of a str-mixin Enum): equal to the plain string, of another exact type"""
 
 
+class _EqStr:
+    """an application's permission constant: no str, not iterable, but its __eq__ says it equals one permission name"""
+
+    def __init__(self, name):
+        self.name = name
+
+    def __eq__(self, other):
+        return isinstance(other, str) and other == self.name
+
+    def __hash__(self):
+        return hash(self.name)
+
+
+def _with_second_thread(case, fn):
+    """LABELLED TEST (kind `two-threads-on-one-helper`): run fn() while a second thread keeps asking the same long-lived
+    helper / policy objects about another resource, other principals and another permission (switch interval 1 us).  The GIL
+    decides the interleaving: a run that agrees shows nothing broke in THIS schedule, it is no proof of thread safety."""
+    import sys
+    import threading
+    other = _Loc()
+    other.__acl__ = [(_impl['Allow'], 'zed', _impl['ALL']), (_impl['Deny'], _impl['Everyone'], _impl['ALL'])]
+    other.__parent__ = None
+    ps = [x for x in PRINCIPALS if x not in case['principals']] + ['zed']
+    perm = [x for x in PERMS if x != case['permission']][0]
+    h, w = _impl['helper'], _impl['world']
+    stop, started = threading.Event(), threading.Event()
+
+    def noise():
+        started.set()
+        while not stop.is_set():
+            try:
+                h.permits(other, ps, perm)
+                w.policy.permits(other, ps, perm)
+                h.principals_allowed_by_permission(other, perm)
+                w.policy.principals_allowed_by_permission(other, perm)
+            except Exception:
+                pass
+    t = threading.Thread(target=noise, daemon=True)
+    old = sys.getswitchinterval()
+    sys.setswitchinterval(1e-6)
+    t.start()
+    started.wait(1.0)
+    try:
+        return fn()
+    finally:
+        stop.set()
+        t.join(2.0)
+        sys.setswitchinterval(old)
+
+
 class _FalsyCallable:
     """callable, falsy, not iterable: `if acl and callable(acl)` does not call it; iterating it raises TypeError"""
 
@@ -575,6 +635,8 @@ def _perm_value(p):
     names, kind = list(p['names']), p['kind']
     if kind == 'strsub':
         return _S(names[0])
+    if kind == 'eqstr':
+        return _EqStr(names[0])
     if kind in ATOMS:
         return {'atom-int': 7, 'atom-none': None, 'atom-object': _Loc()}[kind]
     if kind == 'dict':
@@ -760,16 +822,17 @@ def run_impl(case):
             except Exception as e:
                 sets.append(['EXC', type(e).__name__])
         return [decs[0], sets[0], decs[1], sets[1], decs[2], sets[2], NA, decs[3], NA, NA]
+    run = (lambda fn: _with_second_thread(case, fn)) if case.get('threads') else (lambda fn: fn())
     for f in _deciders(case):
         locs = _build(case)
         try:
-            decs.append(_dec(f(locs[0], _pcontainer(case, ps), p), locs))
+            decs.append(_dec(run(lambda: f(locs[0], _pcontainer(case, ps), p)), locs))
         except Exception as e:
             decs.append(['EXC', type(e).__name__])
     for f in _reporters():
         locs = _build(case)
         try:
-            sets.append(sorted(str(x) for x in f(locs[0], p)))
+            sets.append(sorted(str(x) for x in run(lambda: f(locs[0], p))))
         except Exception as e:
             sets.append(['EXC', type(e).__name__])
     if case['permission'] == RESERVED and case.get('vep') is None:
@@ -850,6 +913,10 @@ def kinds(case, obs):
         k.append('acl-on-class-or-property')
     if any(loc.get('acelist') for loc in case['lineage'] if loc):
         k.append('ace-as-list')
+    if case.get('threads'):
+        k.append('two-threads-on-one-helper')
+    if 'eqstr' in pf:
+        k.append('has-str-equal-permission-object')
     if case.get('bad'):
         k.append('malformed-%s' % case['bad']['kind'])
     k.append('view-%s' % (case.get('vep') or {'kind': 'single'})['kind'])
